@@ -5,7 +5,7 @@ package main
 var props = []propCfg{
 	{
 		ID: "C07", World: "stream", Pkg: "worlds/stream", Test: "TestStream", Level: "exploration",
-		Variants: []variant{{Name: "plain", Quick: 40000, Thorough: 1500000, Workers: 16, QuickS: 900, ThoroughS: 3 * 3600}},
+		Variants: []variant{{Name: "plain", Quick: 250000, Thorough: 6000000, Workers: 16, QuickS: 900, ThoroughS: 3 * 3600}},
 		Rule: "one run = one drawn streaming key configuration (algorithm, level subtle/keyset, key sizes, hashes, tag size, segment size, first-segment offset, keyset size and position of the matching key), " +
 			"one plaintext length chosen relative to the format's segment boundaries, one write history (chunking, zero-length writes, calls after Close), one read history (buffer sizes) over a source with scripted short reads/(0,nil)/EOF styles, " +
 			"and one fault family (F0 none … F8 other key) placed at a drawn, format-aware position; all drawn by rapid from the worker seed. " +
